@@ -818,6 +818,24 @@ fn run_op(tx: &mut Transaction, op: &Value) -> Value {
             problems.truncate(10);
             json!({ "ok": { "problems": problems } })
         }
+        "interp_tx" => {
+            // run the interpreter on input `index` of a one-input transaction with the given unlocking / locking script (asm)
+            let mut tx = Transaction::new(2, 0);
+            let mut txin = TxIn::new(&[3u8; 32], 2, &Script::from_asm_string(op["unlock_asm"].as_str().unwrap_or("")).unwrap(), Some(0xffffffff));
+            txin.set_satoshis(op["value"].as_u64().unwrap_or(1));
+            if let Some(l) = op.get("lock_asm").and_then(|l| l.as_str()) {
+                txin.set_locking_script(&Script::from_asm_string(l).unwrap());
+            }
+            tx.add_input(&txin);
+            let index = op["index"].as_u64().unwrap_or(0) as usize;
+            match Interpreter::from_transaction(&tx, index) {
+                Err(e) => json!({ "err": e.to_string() }),
+                Ok(mut i) => match i.run() {
+                    Ok(()) => json!({ "ok": { "stack": i.state().stack().iter().map(hex::encode).collect::<Vec<String>>() } }),
+                    Err(e) => json!({ "err": e.to_string() }),
+                },
+            }
+        }
         "hash" => {
             let data = hx(&op["input"]);
             let key = op.get("key").map(|k| hx(k)).unwrap_or_default();
